@@ -42,3 +42,50 @@ Definition spec_form_name (f : lform) : string :=
 Lemma gen_forms_standard : forall f,
   form_lookup tbl_c05_forms (lform_code f) = Some (spec_form_name f, spec_form_kind f).
 Proof. intros f; destruct f; reflexivity. Qed.
+
+(* ---------------------------------------------------------------- the header struct *)
+(* DWARF 2-5 section 6.2.4, field by field, under the names the library publishes (these names are
+   API: LineProgram and its users read header['opcode_base'], header['file_entry'], ...):
+     1 unit_length (initial length, 7.4)            2 version (uhalf)
+     3 address_size (ubyte, version 5)              4 segment_selector_size (ubyte, version 5)
+     5 header_length (4 or 8 bytes by format)       6 minimum_instruction_length (ubyte)
+     7 maximum_operations_per_instruction (ubyte, version >= 4; otherwise the value is 1)
+     8 default_is_stmt (ubyte)   9 line_base (sbyte)   10 line_range (ubyte)   11 opcode_base (ubyte)
+    12 standard_opcode_lengths (opcode_base - 1 ubytes)
+    versions 2-4: 13 include_directories (strings up to an empty one)
+                  14 file_names (entries up to one with an empty name)
+    version 5:    13 directory_entry_format_count (ubyte) 14 directory_entry_format (pairs of ULEB128)
+                  15 directories_count (ULEB128)           16 directories
+                  17 file_name_entry_format_count (ubyte)  18 file_name_entry_format
+                  19 file_names_count (ULEB128)            20 file_names
+   Parse_header of Model/C05Header.v reads exactly this list in this order. *)
+Definition spec_header_layout : list (string * hfield) := [
+  ("unit_length", HInitialLength);
+  ("version", HField (KUInt 2));
+  ("address_size", HIfVerGe 5 (HField (KUInt 1)) None);
+  ("segment_selector_size", HIfVerGe 5 (HField (KUInt 1)) None);
+  ("header_length", HField KOffset);
+  ("minimum_instruction_length", HField (KUInt 1));
+  ("maximum_operations_per_instruction", HIfVerGe 4 (HField (KUInt 1)) (Some 1));
+  ("default_is_stmt", HField (KUInt 1));
+  ("line_base", HField (KSInt 1));
+  ("line_range", HField (KUInt 1));
+  ("opcode_base", HField (KUInt 1));
+  ("standard_opcode_lengths", HCountMinus1 "opcode_base" (KUInt 1));
+  ("directory_entry_format", HIfVerGe 5 (HPrefixed "directory_entry_format_count" (KUInt 1) HFormatStruct) None);
+  ("directories", HIfVerGe 5 (HPrefixed "directories_count" KUleb (HFormattedEntry "directory_entry_format")) None);
+  ("file_name_entry_format", HIfVerGe 5 (HPrefixed "file_name_entry_format_count" (KUInt 1) HFormatStruct) None);
+  ("file_names", HIfVerGe 5 (HPrefixed "file_names_count" KUleb (HFormattedEntry "file_name_entry_format")) None);
+  ("include_directory", HIfVerLt 5 HUntilEmptyString None);
+  ("file_entry", HIfVerLt 5 HUntilEmptyName None)
+]%string.
+(* 6.2.4 item 12 of DWARF 2-4 (file_names) and DW_LNE_define_file: a name, then three unsigned LEB128
+   numbers, absent after the empty name that ends the list *)
+Definition spec_file_entry_layout : list (string * hfield) := [
+  ("name", HField KCString);
+  ("", HIfNonEmpty "name" [("dir_index", KUleb); ("mtime", KUleb); ("length", KUleb)])
+]%string.
+
+Lemma gen_header_layout_standard :
+  gen_c05_header = spec_header_layout /\ gen_c05_file_entry = spec_file_entry_layout.
+Proof. split; reflexivity. Qed.
